@@ -94,10 +94,10 @@ def gen_history(rng, maxlen=12, prop="C16", restarts=0):
         elif k == "C":
             ops.append("C %d" % rng.choice([0, 1, 1, 2, 5]))
         elif k == "W":
-            # not on a connection whose disconnect is pending: gevent releases a client that starts waiting on an
-            # already-set event one loop turn LATER when an earlier waiter died before the pending notifier ran
-            # (D 1;A 1 1 - 0;W 1 a1;K 5 a1;W 5 a1;L) - the model's done_pending does not describe that corner
-            ops.append("W %d %s" % (rng.choice([c for c in workers if c not in gone] + [5, 6]), some_jid()))
+            # also on a connection whose disconnect is pending, and on a job that has just finished while the notifier of
+            # an earlier (possibly dying) waiter is pending: since a8ac510 waitjobs does not wait on a finished job
+            # (before, D 1;A 1 1 - 0;W 1 a1;K 5 a1;W 5 a1;L left connection 5 blocked forever)
+            ops.append("W %d %s" % (rng.choice(workers + [5, 6]), some_jid()))
         elif k == "I":
             ops.append("I %s" % some_jid())
         elif k == "S":
@@ -112,32 +112,7 @@ def gen_history(rng, maxlen=12, prop="C16", restarts=0):
             ops.append("G")
     for _ in range(restarts):
         ops.insert(rng.randint(0, len(ops)), "R")
-    return avoid_lost_wakeup_corner(ops)
-
-
-def avoid_lost_wakeup_corner(ops):
-    """Known defect of the real code (gevent 26.8 Event + workq.waitjobs, /verif/fixes/C17-wait-lost-wakeup.diff): a client
-    that starts waiting on an ALREADY finished job while the finish notifier is still pending registers with the notifier,
-    and if every earlier waiter dies (pending disconnect) before the notifier runs, gevent cancels the notifier: the late
-    client is never released (`A 0 0 - -;W 1 a1;D 1;K 7 a1;W 5 a1;L`).  Until the fix is in /repo the generators do not
-    produce that corner: no Wait on a connection whose disconnect is pending, and no Wait between a job-finishing op and
-    the next RunLoop while some disconnect is pending."""
-    res = []
-    pending_d = set()
-    finished_since_loop = False
-    for op in ops:
-        t = op.split()
-        if t[0] == "L" or t[0] == "R":
-            pending_d.clear()
-            finished_since_loop = False
-        elif t[0] == "D":
-            pending_d.add(t[1])
-        elif t[0] in ("F", "K", "T"):
-            finished_since_loop = True
-        elif t[0] == "W" and (t[1] in pending_d or (pending_d and finished_since_loop)):
-            continue
-        res.append(op)
-    return res
+    return ops
 
 
 def gen_drop_scenario(rng, maxlen=12):
@@ -177,7 +152,7 @@ def gen_drop_scenario(rng, maxlen=12):
         if len(ops) >= maxlen:
             break
         ops.insert(rng.randint(1, len(ops)), rng.choice(noise))
-    return avoid_lost_wakeup_corner(ops)
+    return ops
 
 
 def canon_out(out):
